@@ -147,6 +147,11 @@ func (h *NtfnsHandler) Start() error {
 		}
 	}
 
+	if err := h.loadTasks(); err != nil {
+		logging.CPrint(logging.ERROR, "NtfnsHandler.Start(): loadTasks error", logging.LogFormat{"err": err})
+		return err
+	}
+
 	h.quitWg.Add(2)
 	go handle(h)
 	go worker(h)
@@ -773,13 +778,11 @@ func (h *NtfnsHandler) reorg(dbtx mwdb.DBTransaction, currentBest txmgr.BlockMet
 	return nil
 }
 
-func worker(h *NtfnsHandler) {
-	defer simYield("worker.exit")
-	defer Recover()
-	defer h.quitWg.Done()
-
-	simYield("worker.init")
-	mwdb.View(h.walletMgr.db, func(tx mwdb.ReadTransaction) error {
+// loadTasks creates the background task queue and re-queues the imports and
+// removals that were unfinished when the wallet was last stopped. It runs
+// before the worker goroutine and the API can use the queue.
+func (h *NtfnsHandler) loadTasks() error {
+	return mwdb.View(h.walletMgr.db, func(tx mwdb.ReadTransaction) error {
 		wss, err := h.walletMgr.syncStore.GetAllWalletStatus(tx)
 		if err != nil {
 			return err
@@ -809,6 +812,14 @@ func worker(h *NtfnsHandler) {
 		}
 		return nil
 	})
+}
+
+func worker(h *NtfnsHandler) {
+	defer simYield("worker.exit")
+	defer Recover()
+	defer h.quitWg.Done()
+
+	simYield("worker.init")
 
 	for {
 		simYield("worker.select")
